@@ -158,8 +158,10 @@ def run_case(scn, drv):
     r = {'evaluated': 1, 'nontrivial': False, 'features': [], 'disagreements': [], 'violations': []}
     feats = r['features']
 
+    ctx = {}
+
     def viol(orc, msg, **facts):
-        r['violations'].append({'oracle': orc, 'detail': msg, 'facts': facts})
+        r['violations'].append({'oracle': orc, 'detail': msg, 'facts': dict(facts, **ctx)})
     solver = None
     if 'raw' in scn:
         op = build_raw(scn['raw'])
@@ -181,6 +183,7 @@ def run_case(scn, drv):
     if solver == 'SCIP' and not mip:
         solver = None
     feats.append('solver:%s' % solver)
+    ctx.update(solver=str(solver), mip=bool(mip))
     op_snapshot = copy.deepcopy(op)
     if scn.get('soft_first') and mip:
         feats.append('soft-then-hard')
@@ -228,6 +231,16 @@ def run_case(scn, drv):
         r['disagreements'].append({'component': 'translate', 'detail': 'hand-off could not be read back: %s: %s' % (type(e).__name__, e)})
     # ---- independent reference (HiGHS on the same arrays)
     ref = reference(op_snapshot)
+    if ref['status'] == 'optimal':
+        # trust the reference only as far as its point can be verified: feasible for the problem and integral on the flags
+        w_, _ = pf.feasibility_violation(op_snapshot, ref['x'])
+        okint = True
+        if 'bool' in op_snapshot.mapping.columns:
+            mm_ = op_snapshot.mapping[~op_snapshot.mapping.index.duplicated(keep='first')]
+            bl_ = [int(i) for i in mm_.index[mm_['bool'].fillna(False).astype(bool)]]
+            okint = (not bl_) or float(np.abs(ref['x'][bl_] - np.round(ref['x'][bl_])).max()) <= 1e-6
+        if w_ > 1e-6 or not okint:
+            ref = {'status': 'unverified'}
     if isinstance(res, str):
         feats.append('reported:' + res)
         if res == 'not successful' and ref['status'] == 'optimal':
